@@ -132,6 +132,20 @@ func c17Check(o *Oracle, c spellCase) (ok bool, kind, detail, resp string) {
 	if !pathsEqual(a, a2) {
 		return false, "nondeterministic", fmt.Sprintf("two calls differ: %v vs %v", a, a2), ""
 	}
+	// the same call twice on ONE engine object (its paths stay loaded between executes)
+	var s1, s2 clip.Paths64
+	if fe := safeCall(func() {
+		e := clip.NewClipper64()
+		e.AddPaths(c.Subject, clip.Subject, false)
+		if c.Clip != nil {
+			e.AddPaths(c.Clip, clip.Clip, false)
+		}
+		s1, s2 = clip.Paths64{}, clip.Paths64{}
+		e.Execute(clip.ClipType(c.CT), clip.FillRule(c.FR), &s1)
+		e.Execute(clip.ClipType(c.CT), clip.FillRule(c.FR), &s2)
+	}); fe == "" && !pathsEqual(s1, s2) {
+		return false, "nondeterministic", fmt.Sprintf("two Execute calls on one engine differ: %v vs %v", s1, s2), ""
+	}
 	t, f := respell(c)
 	b, f3 := runBool(t)
 	if f3 != "" {
@@ -172,7 +186,7 @@ var transforms = []string{"permute", "rotate-start", "repeat-vertex", "closing-v
 
 func init() {
 	stages["c17-search"] = func(ctx *Ctx, cnt func(q, t int) int, replay string) Result {
-		col := NewCollector("C17", "search", "C01's generators × 10 spelling transformations (path permutation, start rotation, repeated vertex, closing vertex, single reversal under EvenOdd, global reversal with Positive↔Negative, subject/clip exchange for ∪ ∩ ⊕, x-mirror, y-mirror, 90° rotation); both solutions compared as regions by the Lean oracle outside the 2-band of the (transformed) inputs; every call repeated and compared exactly; non-trivial = non-empty solution with ≥ 2 judged faces")
+		col := NewCollector("C17", "search", "C01's generators × 10 spelling transformations (path permutation, start rotation, repeated vertex, closing vertex, single reversal under EvenOdd, global reversal with Positive↔Negative, subject/clip exchange for ∪ ∩ ⊕, x-mirror, y-mirror, 90° rotation); both solutions compared as regions by the Lean oracle outside the 2-band of the (transformed) inputs; every call repeated (fresh call, and a second Execute on the same engine object) and compared exactly; non-trivial = non-empty solution with ≥ 2 judged faces")
 		parallelFor(ctx, cnt(10000, 150000), true, col, func(o *Oracle, i int) {
 			r := NewRng(ctx.Seed, "c17", i)
 			c := spellCase{boolCase: genBoolCase(r, ctx.Tier), Transform: transforms[r.Intn(len(transforms))], K: r.Intn(7) + 1}
